@@ -333,7 +333,10 @@ C17Frozen(pre, a, res, post) ==
 \* ---------------------------------------------------------------- C16  confirmations
 SigCount(s, c) == FoldSet(LAMBDA gsig, acc : acc + Cardinality(DOMAIN gsig.by), 0, s.ch[c].sigs)
 C16Confirm(pre, a, res, post) ==
-    IF a.k # "Confirm" THEN UNION {Fail(SigCount(post, c) > SigCount(pre, c), "C16:RecordedWithoutConfirm", c) : c \in Chains(post)}
+    IF a.k = "Tx"       \* several messages in one transaction: at most one new record per confirmation it carries
+    THEN UNION {Fail(SigCount(post, c) - SigCount(pre, c) > Cardinality({i \in DOMAIN a.msgs : a.msgs[i].k = "Confirm" /\ a.msgs[i].chain = c}),
+                     "C16:RecordedWithoutConfirm", c) : c \in Chains(post)}
+    ELSE IF a.k # "Confirm" THEN UNION {Fail(SigCount(post, c) > SigCount(pre, c), "C16:RecordedWithoutConfirm", c) : c \in Chains(post)}
     ELSE IF a.chain \notin Chains(pre) THEN Fail(res.out = "ok", "C16:UnknownChainAccepted", a.chain)
     ELSE LET c == a.chain
              v == SignerVal(pre, c, a.by)
